@@ -93,9 +93,59 @@ pub fn lexd(fields: &[&str]) -> String
 	let tokens = lexer::lex(&src, "f.pn");
 	dump_delta_tokens(&src, &tokens)
 }
-pub fn delta(_fields: &[&str]) -> String
+/// delta <mode> <bytes>: the second-generation front end: lex -> parse -> errors / build_header / as_xml.
+/// mode: front (counts and codes) | xml (+ XML dumps as hex) | dump (+ Debug dump of the flat node arrays)
+pub fn delta(fields: &[&str]) -> String
 {
-	"todo".into()
+	let mode = fields.get(0).copied().unwrap_or("front");
+	let src = unescape(fields.get(1).copied().unwrap_or(""));
+	let tokens = lexer::lex(&src, "f.pn");
+	let ntok = tokens.base_tokens().len();
+	if let Some(errors) = tokens.errors()
+	{
+		return format!("lexerr tokens={} codes={}", ntok, crate::codes_str(&errors.codes()));
+	}
+	let tree = penne::delta::parser::parse(&tokens);
+	let mut out = format!(
+		"tokens={} nodes={} decls={}",
+		ntok,
+		tree.num_parse_nodes(),
+		tree.num_declarations()
+	);
+	if let Some(errors) = tree.errors(&tokens)
+	{
+		return format!("parseerr {} codes={}", out, crate::codes_str(&errors.codes()));
+	}
+	let header = tree.build_header();
+	out.push_str(&format!(" hnodes={} hdecls={}", header.num_parse_nodes(), header.num_declarations()));
+	if let Ok(text) = std::str::from_utf8(&src)
+	{
+		let xml: Vec<String> = tree.as_xml(&tokens, text).collect();
+		let hxml: Vec<String> = header.as_xml(&tokens, text).collect();
+		let malformed = xml.iter().chain(hxml.iter()).filter(|l| l.contains("MALFORMED")).count();
+		out.push_str(&format!(" xmllines={} hxmllines={} malformed={}", xml.len(), hxml.len(), malformed));
+		if mode == "xml" || mode == "dump"
+		{
+			out.push_str(&format!(
+				" xml=h:{} hxml=h:{}",
+				crate::hex(xml.join("\n").as_bytes()),
+				crate::hex(hxml.join("\n").as_bytes())
+			));
+		}
+	}
+	else
+	{
+		out.push_str(" notutf8");
+	}
+	if mode == "dump"
+	{
+		out.push_str(&format!(
+			" tree=h:{} header=h:{}",
+			crate::hex(format!("{:?}", tree).as_bytes()),
+			crate::hex(format!("{:?}", header).as_bytes())
+		));
+	}
+	format!("ok {}", out)
 }
 /// fuzz <kb>: exactly what `penne fuzz tokens --kb <kb>` does (src/main.rs: do_fuzzing), then both real lexers
 pub fn fuzz(fields: &[&str]) -> String
